@@ -15,6 +15,13 @@ the model's `crash k t <op>` (file size + adler32, full bytes via `crashimg` whe
 `<journal>.tmp` is compared too (`jt=`, bytes via `crashjt`), reopen must leave it alone, and `crashat`
 steps (a head drop really killed at or before its rename, then reopened) put a stale tmp into the
 states from which further ops - further head drops included - are crash-enumerated.
+File-system level pass (`fs_images`, model-free): every file-system-changing call the module makes while
+an enumerated op runs (os.remove / unlink / rename / replace / renames / truncate, shutil.move / copy*,
+open for writing + the content reaching the file) is an event; the directory is copied right before and
+right after each one, every copy is reopened with the real class and judged by the property monitor.  A
+journal file that is missing while there were entries is a violation by itself
+(`journal.<method>:journal-file-missing-after-kill`).  Calls the model does not know show up as `FS:*`
+primitives, so the (k, t) enumeration and the real kills stop before / after them as well.
 Independently of the model the crash clause of the property statement is monitored on the real
 reopened journal (lib.crash_monitor).  The head-drop loss D15 (deleteEntriesTo = clear + re-add, repaired
 by fixes/D15-journal-head-drop-by-atomic-replace.diff) is reported as a violation with its old signature
@@ -99,8 +106,7 @@ def directed_cases():
     return cs
 
 
-def no_stored_ci(jm, snap):
-    return snap[1] is None or lib.meta_value_str(jm, snap[1]) in ("none", "torn")
+no_stored_ci = lib.no_stored_ci
 
 
 def t_values(L, rng, all_t):
@@ -145,10 +151,10 @@ class Walker(object):
         if len(self.out["disagreements"]) < 3 and note.split(":")[0] not in [x["note"].split(":")[0] for x in self.out["disagreements"]]:
             self.out["disagreements"].append(d)
 
-    def violate(self, sig, what, inp):
+    def violate(self, sig, what, inp, kind="crash"):
         self.cov.hit("monitor_failures")
         if sig not in [v["signature"] for v in self.out["violations"]] and len(self.out["violations"]) < 5:
-            self.out["violations"].append({"signature": sig, "what": what, "replay": dict(inp, kind="crash")})
+            self.out["violations"].append({"signature": sig, "what": what, "replay": dict(inp, kind=kind)})
 
     # -- one crash point ---------------------------------------------------------------------------
     def point(self, pre, op, snap, pending, prims, final, old, allowed, k, t, do_kill, cont_rng, tv_old=(0, None)):
@@ -193,6 +199,13 @@ class Walker(object):
                 which = [n for n, a, b in zip(("journal", ".meta", ".meta.tmp", "journal.tmp"), img, imgB) if a != b]
                 self.disagree("kill: files after a real kill differ from snapshot + recorded primitives", "-",
                               "killed=%s differing=%s prims done=%s" % (killed, which, lib.prims_str(done, jm)), inp)
+        if img[0] is None:
+            # no journal file at all (the model cannot express that): judged by the property monitor only
+            cov.hit("points.journal_file_missing")
+            m = lib.judge_image(jm, self.scratch, img, op, old, allowed, tv_old)
+            if m is not None:
+                self.violate(m[0], m[1] + " (kill at primitive %d of %d: %s)" % (k, np_, lib.prims_str(prims[:k], jm)[-120:]), inp)
+            return
         # reopen with the real class
         o = lib.open_image(jm, self.scratch, img)
         try:
@@ -360,8 +373,12 @@ class Walker(object):
                         snap = lib.snapshot(self.path)
                         pending = real.pending_ci()
                         old = list(ref)
+                    fsimgs = None
                     try:
-                        prims = real.apply(op)
+                        if enum:
+                            prims, fsimgs = lib.fs_images(real, op)
+                        else:
+                            prims = real.apply(op)
                     except Exception as e:               # noqa  (no kill planned here: the op itself fails)
                         self.violate("journal.%s:exception:%s" % (op[0], type(e).__name__),
                                      "%s after %d ops raised %r" % (op[:3], len(pre), e),
@@ -387,6 +404,11 @@ class Walker(object):
                             self.samples.append({"name": case["name"], "entries_before": len(old), "op": op,
                                                  "primitives": lib.prims_str(prims, jm),
                                                  "crash_points": "k=0..%d, every sampled t really killed and reopened" % np_})
+                        # file-system level images, straight from the directory, judged model-free
+                        adm = set(allowed) | ({1} if no_stored_ci(jm, snap) else set())
+                        for sig, what, n, when in lib.judge_fs_images(jm, self.scratch, fsimgs, op, old, adm, tv, cov):
+                            self.violate(sig, "%s on %d entries %s" % (lib.METHOD.get(op[0], op[0]), len(old), what),
+                                         {"pre": list(pre), "op": op, "fs_index": n, "when": when}, kind="fs")
                         ks = list(range(np_ + 1))
                         if np_ > 14 and not case.get("kill_all", False):
                             # long head drops in the seeded stream: both ends + a sample of the middle
@@ -468,6 +490,13 @@ def run(ctx):
     budget = ctx.scale(24.0, 230.0)       # safety net only
     w.deadline = t0 + budget
     try:
+        # phase 0 (fast, model-free): the file-system level images of every op of every directed sequence
+        for c in directed_cases():
+            for v in lib.fs_check_sequence(jm, tmp, c["ops"], cov=cov, limit=2):
+                cov.hit("monitor_failures")
+                if v["signature"] not in [x["signature"] for x in out["violations"]] and len(out["violations"]) < 5:
+                    out["violations"].append(v)
+            cov.hit("sequences.fs_pass")
         for c in directed_cases():
             if w.over():
                 break
@@ -504,8 +533,14 @@ def run(ctx):
               ("points.delto_with_stale_tmp", 30), ("points.delto_tmp_grows", 20), ("points.with_stale_tmp", 50),
               ("reopen_with_stale_tmp", 50), ("crashjt_compared", 50), ("continued_with_stale_tmp", 10),
               ("continued_delto_removes_stale_tmp", 2), ("walk.crashat_leaves_stale_tmp", 5),
-              ("points.settv", 30), ("points.settv_with_pending_ci", 8)]
+              ("points.settv", 30), ("points.settv_with_pending_ci", 8),
+              # file-system level images
+              ("fs_images", 200), ("fs_images.between_two_fs_calls_of_one_op", 100), ("fs.headdrop_calls", 20),
+              ("fs_calls.delto", 20), ("fs_calls.timer", 9), ("fs_calls.settv", 9)]
     missed = ["%s=%d<%d" % (k, cov.get(k, 0), f) for k, f in floors if cov.get(k, 0) < f]
+    if cov.get("fs.headdrop_calls_with_before_and_after", 0) != cov.get("fs.headdrop_calls", 0):
+        missed.append("head-drop file-system calls without a before AND an after image: %d of %d have both"
+                      % (cov.get("fs.headdrop_calls_with_before_and_after", 0), cov.get("fs.headdrop_calls", 0)))
     if done < n_rand // 2 and len(out["disagreements"]) < 3:
         missed.append("random sequences %d < %d (time budget)" % (done, n_rand // 2))
     if missed and not out["violations"] and not out["disagreements"]:
@@ -575,6 +610,9 @@ def replay_crash(jm, tmp, rp):
     if exc is not None:
         lib.remove_files(kp)
         return ("journal.%s:exception:%s" % (op[0], type(exc).__name__), "%s raised %r" % (op[:3], exc)), killed
+    if img[0] is None:
+        lib.remove_files(path)
+        return lib.judge_image(jm, kp, img, op, ref, allowed, tv), killed
     o = lib.open_image(jm, kp, img)
     try:
         if "err" in o:
@@ -607,7 +645,10 @@ def replay(ctx, violation):
     rp = violation.get("replay") or {}
     tmp = ctx.tmpdir()
     try:
-        m, killed = replay_crash(jm, tmp, rp)
+        if rp.get("kind") == "fs" or "fs_index" in rp:
+            m, killed = lib.replay_fs(jm, tmp, rp)
+        else:
+            m, killed = replay_crash(jm, tmp, rp)
     finally:
         shutil.rmtree(tmp, ignore_errors=True)      # ./check --replay does not clean up the ctx
     return {"violated": m is not None, "signature": m and m[0], "what": m and m[1], "killed": killed, "tree": ctx.repo}
